@@ -168,31 +168,40 @@ func analyse(kops []op, tl *timeline, phases []phaseInfo) analysis {
 		}
 	}
 	servingDesc := "unknown"
-	if len(serving) == 1 {
-		for s := range serving {
-			if s >= 0 {
-				hist := []string{}
-				// history of that store when the phase of the first wrong quiescent read started,
-				// plus the fault of that phase if it hit this store
-				for _, b := range bad {
-					if b.R.Step == stepQuietDown || b.R.Step == stepQuietHealed {
-						if b.R.Phase >= 1 && b.R.Phase <= len(phases) {
-							p := phases[b.R.Phase-1]
-							hist = append(hist, p.StoreHistory[s]...)
-							if p.Victim-1 == s && b.R.Step == stepQuietHealed {
-								hist = append(hist, p.Fault.Kind)
-							}
-						}
-						break
+	descs := map[string]bool{}
+	var stores []int
+	for sv := range serving {
+		if sv < 0 {
+			continue
+		}
+		stores = append(stores, sv+1)
+		// history of that store at its first wrong quiescent read (plus the fault of that phase if
+		// it hit this store and the read came after the heal)
+		var hist []string
+		for _, b := range bad {
+			if (b.R.Step == stepQuietDown || b.R.Step == stepQuietHealed) && b.Serving == sv {
+				if b.R.Phase >= 1 && b.R.Phase <= len(phases) {
+					p := phases[b.R.Phase-1]
+					hist = append(hist, p.StoreHistory[sv]...)
+					if p.Victim-1 == sv && b.R.Step == stepQuietHealed {
+						hist = append(hist, p.EventOfVictim)
 					}
 				}
-				servingDesc = describeHistory(hist)
-				detail["serving_store"] = s + 1
-				detail["serving_store_history"] = hist
+				break
 			}
 		}
-	} else if len(serving) > 1 {
-		servingDesc = "several"
+		descs[describeHistory(hist)] = true
+		detail[fmt.Sprintf("history_of_serving_store_%d", sv+1)] = hist
+	}
+	sort.Ints(stores)
+	detail["serving_stores"] = stores
+	if len(descs) > 0 {
+		var l []string
+		for d := range descs {
+			l = append(l, d)
+		}
+		sort.Strings(l)
+		servingDesc = strings.Join(l, "+")
 	}
 	persistence := "transient"
 	if quiet > 0 {
@@ -218,6 +227,11 @@ func describeHistory(h []string) string {
 			}
 		}
 		return false
+	}
+	for _, x := range h {
+		if strings.HasSuffix(x, afterIdleSuffix) {
+			return "restarted-after-sigkill-after-idle-shard-flush"
+		}
 	}
 	switch {
 	case has(killAfterIdle):
